@@ -276,6 +276,63 @@ def conversion_invariant(rec, t, fname, spec, case, viol):
             viol.append(("C05:converted-to-another-value:%s:%s-input" % (t, type(g).__name__), case, {"field": fname, "given": repr(g)[:80], "stored": repr(st)[:80], "want": repr(want)[:80]}))
 
 
+META_VALUES = {
+    "_source": ["b'by\\xff'", "'txt'", "''", "5", "None", "S('s', 300)"],
+    "_classification": ["b'by\\xff'", "'tlp'", "''", "0", "None"],
+    "_generated": ["dt(2020,1,1,1,2,3)", "dt(2020,1,1,tz=off(5,30))", "1600000000", "0", "'2022-02-02T02:02:02'", "None", "dt(2020,10,25,2,30,tz=Z('Europe/Amsterdam'),fold=1)"],
+}
+
+
+def run_meta(case):
+    """The reserved fields are fields too: the same conversion through every door, for both generated-class templates."""
+    from flow.record import GroupedRecord, RecordStreamReader
+
+    h = jhash(case)
+    fname, spec = case["meta"]
+    viol = []
+    outs = []
+    fields = [["string", "from"], ["varint", "n"]] if case.get("keyword") else [["string", "x"], ["varint", "n"]]
+    desc = recs.descriptor("f/meta" + ("kw" if case.get("keyword") else ""), fields)
+    base = desc.recordType(**{fields[0][1]: "v", "n": 1})
+    for door in ("construct", "construct-positional", "assign", "replace", "init_from_dict", "grouped-assign", "stream"):
+        try:
+            v = lit.ev(spec)
+            if door == "construct":
+                out = desc.recordType(**{fname: v, "n": 2})
+            elif door == "construct-positional":
+                if case.get("keyword"):
+                    continue
+                out = desc.recordType("v", 3, **{fname: v})
+            elif door == "assign":
+                out = desc.recordType(n=4)
+                setattr(out, fname, v)
+            elif door == "replace":
+                out = base._replace(**{fname: v})
+            elif door == "init_from_dict":
+                out = desc.init_from_dict({fname: v, "n": 5})
+            elif door == "grouped-assign":
+                out = desc.recordType(n=6)
+                g = GroupedRecord("f/g", [out, recs.descriptor("f/other", [["string", "o"]])(o="o")])
+                setattr(g, fname, v)
+                out = g.records[0] if fname != "_generated" else out
+            else:
+                first = desc.recordType(**{fname: v, "n": 7})
+                err, data = serialisable(first)
+                if err is not None:
+                    viol.append(("C05:accepted-but-unserialisable:meta:%s:%s" % (fname, type(err).__name__), case, {"error": repr(err)[:200]}))
+                    continue
+                with warnings.catch_warnings():
+                    warnings.simplefilter("ignore")
+                    out = list(RecordStreamReader(io.BytesIO(data)))[0]
+            outs.append("accepted")
+        except Exception:  # noqa: BLE001
+            outs.append("rejected")
+            continue
+        slot_invariant(out, "meta:%s:%s" % (fname, door), case, viol)
+    seen = set()
+    return {"ev": 7, "h": h, "nt": "accepted" in outs, "out": ["meta:%s" % o for o in sorted(set(outs))], "viol": [v for v in viol if not (v[0] in seen or seen.add(v[0]))]}
+
+
 def run_twins(case):
     h = jhash(case)
     a, b = case["twins"]
@@ -370,6 +427,8 @@ def run_case(case):
         return run_cross(case)
     if case.get("twins"):
         return run_twins(case)
+    if case.get("meta"):
+        return run_meta(case)
     if "wire" in case:
         return run_wire(case)
     h = jhash(case)
@@ -487,6 +546,10 @@ def cases(tier, seed):
         for other in LIST_TYPES:
             if other != home:
                 yield {"t": other, "cross": [spec, home, other, rej.get(other, W)], "events": []}
+    for fname, specs in META_VALUES.items():
+        for spec in specs:
+            for kw in (False, True):
+                yield {"t": "meta", "meta": [fname, spec], "keyword": kw, "events": []}
     # hostile wire values: a stream / JSON line from elsewhere carrying what the type cannot represent
     for t, wire in WIRE:
         yield {"t": t, "wire": wire, "events": []}
